@@ -138,6 +138,18 @@ Qed.
 Lemma gf_update : forall k d m, gap_free m -> gap_free (update k d m).
 Proof. intros. now apply keys_from_update. Qed.
 
+(** relinking descriptors (a deleted frame) keeps the names *)
+Lemma keys_from_map_snd : forall (f : dimdesc -> dimdesc) m a,
+  keys_from_z a m -> keys_from_z a (map (fun p => (fst p, f (snd p))) m).
+Proof. induction m as [|p m IH]; intros a H; cbn; auto. destruct H as [H1 H2]. split; auto. Qed.
+
+Lemma gf_map_snd : forall (f : dimdesc -> dimdesc) m, gap_free m -> gap_free (map (fun p => (fst p, f (snd p))) m).
+Proof. intros. now apply keys_from_map_snd. Qed.
+
+Lemma map_snd_map : forall (f : dimdesc -> dimdesc) (m : dmap),
+  map snd (map (fun p => (fst p, f (snd p))) m) = map f (map snd m).
+Proof. intros. rewrite !map_map. reflexivity. Qed.
+
 Lemma update_length : forall k d m, List.length (update k d m) = List.length m.
 Proof. intros. unfold update. apply map_length. Qed.
 
@@ -220,10 +232,10 @@ Ltac crush := repeat (first [bool_atom | dm]).
 Ltac unfold_ops :=
   unfold append_set, append_range, append_sampled, append_alias, append_frame_idx, append_frame_name, append_frame,
     append_frame_be, delete_dims, s_label, s_unit, s_interval, s_offset, t_labels, t_label, r_ticks, r_label, r_unit,
-    r_tick_at, r_ticks_sc, f_query, arr_label, arr_unit, arr_data, reopen, get_dim, all_dims, with_dim, rm, wr in *.
+    r_tick_at, r_ticks_sc, f_query, arr_label, arr_unit, arr_data, reopen, drop_foreign, recreate_frame, get_dim, all_dims, with_dim, rm, wr in *.
 
 Ltac state_simpl :=
-  cbn [fst snd dims a_label a_unit a_data a_ty a_rank frames ro add_dim with_dims with_label with_unit with_data set_dim] in *.
+  cbn [fst snd dims a_label a_unit a_data a_ty a_rank frames ro foreign b2_alive add_dim with_dims with_label with_unit with_data set_dim] in *.
 
 (* ------------------------------------------------------------------------------------------ *)
 (** * The group-creation step on gap-free states *)
@@ -264,7 +276,7 @@ Proof.
     rewrite ?(create_group_next s H);
     try (destruct (0 <? count s) eqn:E0; [|rewrite (create_group_first s H E0)]);
     crush; state_simpl;
-    auto using gf_app, gf_update, gf_nil, gf_app_first;
+    auto using gf_app, gf_update, gf_nil, gf_app_first, gf_map_snd;
     try (unfold count; rewrite delete_all_gf by assumption; apply gf_nil);
     try (unfold count; apply gf_app; assumption).
 Qed.
@@ -291,7 +303,7 @@ Ltac rep_simpl :=
   cbn [repaired check_sorted_on_append check_interval_on_append keep_negative_offset validate_unit_first
        validate_frame_first reject_nan ro_delete_throws] in *.
 Ltac abs_simpl :=
-  cbn [abs q_dims q_label q_unit q_data q_ty q_rank q_frames q_ro s_with_dims s_with_label s_with_unit s_with_data
+  cbn [abs q_dims q_label q_unit q_data q_ty q_rank q_frames q_ro q_foreign q_b2 s_with_dims s_with_label s_with_unit s_with_data
        q_data_dbl s_count] in *.
 
 Lemma lempty_count : forall s, lempty (map snd (dims s)) = negb (0 <? count s).
@@ -359,7 +371,7 @@ Qed.
 Lemma observe_refines : forall s, gap_free (dims s) -> dobserve s = s_observe (abs s).
 Proof.
   intros s H. unfold dobserve, s_observe. rewrite s_count_abs.
-  cbn [abs q_dims q_label q_unit q_data q_ty q_rank q_frames q_ro].
+  cbn [abs q_dims q_label q_unit q_data q_ty q_rank q_frames q_ro q_foreign q_b2].
   unfold q_data_dbl, data_dbl. cbn [abs q_data q_ty].
   rewrite !lookup_gf by assumption. rewrite s_get_zero.
   unfold count at 3. rewrite <- (zlen_map snd (dims s)), s_get_next. cbn [opt_is_some].
@@ -371,8 +383,8 @@ Qed.
 
 Ltac fin :=
   try (split; [ unfold abs, set_dim, add_dim, with_dims, with_label, with_unit, with_data, s_with_dims, s_with_label, s_with_unit, s_with_data;
-                     cbn [dims a_label a_unit a_data a_ty a_rank frames ro q_dims q_label q_unit q_data q_ty q_rank q_frames q_ro];
-                     rewrite ?map_app, ?update_snd by assumption; reflexivity
+                     cbn [dims a_label a_unit a_data a_ty a_rank frames ro foreign b2_alive q_dims q_label q_unit q_data q_ty q_rank q_frames q_ro q_foreign q_b2];
+                     rewrite ?map_app, ?map_snd_map, ?update_snd by assumption; reflexivity
                    | rewrite ?s_count_abs; unfold count in *;
                      try (match goal with E : (0 <? zlen (dims ?s)) = false |- _ =>
                             replace (zlen (dims s)) with 0 by (pose proof (zlen_nonneg (dims s)); apply Z.ltb_ge in E; lia) end);
@@ -464,6 +476,16 @@ Proof.
   destruct (fst x =? k); auto.
 Qed.
 
+Lemma desc_ok_detach : forall r t k d, desc_ok r t (detach k d) = desc_ok r t d.
+Proof. intros. destruct d; cbn; auto. destruct frame; auto. destruct (Nat.eqb n k); reflexivity. Qed.
+
+Lemma Forall_detach : forall r t k (m : dmap),
+  Forall (fun p => desc_ok r t (snd p) = true) m ->
+  Forall (fun p => desc_ok r t (snd p) = true) (map (fun p => (fst p, detach k (snd p))) m).
+Proof.
+  intros r t k m H. induction H; cbn [map]; constructor; auto. cbn [snd]. now rewrite desc_ok_detach.
+Qed.
+
 Lemma ok_step : forall o s, gap_free (dims s) -> all_ok s -> all_ok (fst (dstep repaired o s)).
 Proof.
   intros o s H A.
@@ -478,6 +500,7 @@ Proof.
   all: unfold all_ok in *; state_simpl.
   all: try (apply Forall_app; split; [assumption|]; constructor; [|constructor]; cbn [snd desc_ok]).
   all: try (apply Forall_update; [assumption|]; intros; cbn [snd desc_ok]).
+  all: try (apply Forall_detach; assumption).
   all: try constructor.
   all: try reflexivity; try assumption.
   all: try (apply andb_true_intro; split; [apply Nat.leb_le; apply Nat.ltb_ge; assumption | assumption]).
@@ -523,7 +546,8 @@ Theorem reopen_identity : forall b r s,
   snd (dstep b (Reopen r) s) = Ok ADone /\
   dobserve (fst (dstep b (Reopen r) s)) = dobserve s /\
   dims (fst (dstep b (Reopen r) s)) = dims s /\
-  abs (fst (dstep b (Reopen r) s)) = mkS (map snd (dims s)) (a_label s) (a_unit s) (a_data s) (a_ty s) (a_rank s) (frames s) r.
+  abs (fst (dstep b (Reopen r) s)) = mkS (map snd (dims s)) (a_label s) (a_unit s) (a_data s) (a_ty s) (a_rank s) (frames s) r
+    (map keep_persistent (foreign s)) (b2_alive s).
 Proof. intros. cbn [dstep]. unfold reopen. cbn [fst snd]. repeat split; reflexivity. Qed.
 
 (* ------------------------------------------------------------------------------------------ *)
@@ -637,9 +661,9 @@ Proof.
   - apply all_ok_abs. now apply desc_ok_run.
 Qed.
 
-Lemma init_gf : forall t rank len fs, gap_free (dims (dinit t rank len fs)).
+Lemma init_gf : forall t rank len fs ffs, gap_free (dims (dinit t rank len fs ffs)).
 Proof. intros. exact I. Qed.
-Lemma init_ok : forall t rank len fs, all_ok (dinit t rank len fs).
+Lemma init_ok : forall t rank len fs ffs, all_ok (dinit t rank len fs ffs).
 Proof. intros. constructor. Qed.
 
 (* ------------------------------------------------------------------------------------------ *)
@@ -765,7 +789,9 @@ Qed.
 (** * The code as pinned: computed witnesses ([..._refuted]) *)
 
 Definition w_frame : frame := mkFrame "f0" 2 [("name", "", NDArr.TString); ("freq", "Hz", NDArr.TDouble)].
-Definition w_init : state := dinit NDArr.TDouble 1 3 [w_frame].
+(** a frame of ANOTHER block that carries the name of the local frame *)
+Definition w_foreign : frame := mkFrame "f0" 1 [("x", "s", NDArr.TDouble)].
+Definition w_init : state := dinit NDArr.TDouble 1 3 [w_frame] [w_foreign].
 Definition d_m25 : F64 := ofME (-5) (-1).      (* -2.5 *)
 
 Definition is_ok_ans (r : res ans) : bool := match r with Ok _ => true | _ => false end.
@@ -806,9 +832,9 @@ Proof. vm_compute. repeat split; reflexivity. Qed.
 
 (** a data frame of another block: the call throws, a descriptor without a frame stays *)
 Lemma foreign_frame_trace_refuted :
-  is_ok_ans (snd (dstep code_today (AppendFrame FForeign) w_init)) = false /\
-  count (fst (dstep code_today (AppendFrame FForeign) w_init)) = 1 /\
-  count (fst (dstep repaired (AppendFrame FForeign) w_init)) = 0.
+  is_ok_ans (snd (dstep code_today (AppendFrame (FForeign 0)) w_init)) = false /\
+  count (fst (dstep code_today (AppendFrame (FForeign 0)) w_init)) = 1 /\
+  count (fst (dstep repaired (AppendFrame (FForeign 0)) w_init)) = 0.
 Proof. vm_compute. repeat split; reflexivity. Qed.
 
 (** NaN passes [interval <= 0.0] and std::is_sorted *)
@@ -832,7 +858,7 @@ Proof. vm_compute. repeat split; reflexivity. Qed.
 Lemma rejected_no_trace_refuted :
   exists o s e, gap_free (dims s) /\ dimension_op o /\ snd (dstep code_today o s) = Err e /\ fst (dstep code_today o s) <> s.
 Proof.
-  exists (AppendFrame FForeign), w_init, E_Runtime. split; [exact I|]. split; [exact I|]. split; [reflexivity|].
+  exists (AppendFrame (FForeign 0)), w_init, E_Runtime. split; [exact I|]. split; [exact I|]. split; [reflexivity|].
   intros X. apply (f_equal count) in X. vm_compute in X. discriminate X.
 Qed.
 
@@ -856,13 +882,13 @@ Proof. vm_compute. repeat split; reflexivity. Qed.
 (* ------------------------------------------------------------------------------------------ *)
 (** * The statements over all histories from the empty array *)
 
-Theorem dims_gap_free : forall b ops t rank len fs,
-  let s := dfinal b ops (dinit t rank len fs) in keys (dims s) = zrange (count s).
+Theorem dims_gap_free : forall b ops t rank len fs ffs,
+  let s := dfinal b ops (dinit t rank len fs ffs) in keys (dims s) = zrange (count s).
 Proof. intros. apply gap_free_zrange. apply gap_free_run. apply init_gf. Qed.
 
 (** dimensions() lists exactly the descriptors 1..n with their kinds; nothing lives at 0 or n+1 *)
-Theorem dims_answer : forall b ops t rank len fs,
-  let s := dfinal b ops (dinit t rank len fs) in
+Theorem dims_answer : forall b ops t rank len fs ffs,
+  let s := dfinal b ops (dinit t rank len fs ffs) in
   snd (dstep b Dims s) = Ok (ADims (map (fun p => (fst p, kind_of (snd p))) (dims s))) /\
   snd (dstep b (GetDim 0) s) = Ok (AKind None) /\
   snd (dstep b (GetDim (count s + 1)) s) = Ok (AKind None) /\
@@ -875,41 +901,53 @@ Proof.
   - rewrite lookup_gf by assumption. unfold count. rewrite <- (zlen_map snd (dims s)). now rewrite s_get_next.
 Qed.
 
-Theorem history_refines : forall ops t rank len fs,
-  abs (fst (drun repaired ops (dinit t rank len fs))) = fst (sp_run ops (sinit t rank len fs)) /\
-  map forget (snd (drun repaired ops (dinit t rank len fs))) = snd (sp_run ops (sinit t rank len fs)).
-Proof. intros. apply (refines_run ops (dinit t rank len fs)). apply init_gf. Qed.
+Theorem history_refines : forall ops t rank len fs ffs,
+  abs (fst (drun repaired ops (dinit t rank len fs ffs))) = fst (sp_run ops (sinit t rank len fs ffs)) /\
+  map forget (snd (drun repaired ops (dinit t rank len fs ffs))) = snd (sp_run ops (sinit t rank len fs ffs)).
+Proof. intros. apply (refines_run ops (dinit t rank len fs ffs)). apply init_gf. Qed.
 
-Theorem ticks_sorted_inv : forall ops t rank len fs i ticks u l,
-  lookup i (dims (dfinal repaired ops (dinit t rank len fs))) = Some (DRange ticks u l) -> ascending ticks = true.
+Theorem ticks_sorted_inv : forall ops t rank len fs ffs i ticks u l,
+  lookup i (dims (dfinal repaired ops (dinit t rank len fs ffs))) = Some (DRange ticks u l) -> ascending ticks = true.
 Proof.
-  intros ops t rank len fs i ticks u l L.
-  exact (lookup_ok _ _ _ (desc_ok_run ops _ (init_gf t rank len fs) (init_ok t rank len fs)) L).
+  intros ops t rank len fs ffs i ticks u l L.
+  exact (lookup_ok _ _ _ (desc_ok_run ops _ (init_gf t rank len fs ffs) (init_ok t rank len fs ffs)) L).
 Qed.
 
-Theorem interval_positive_inv : forall ops t rank len fs i x off u l,
-  lookup i (dims (dfinal repaired ops (dinit t rank len fs))) = Some (DSampled x off u l) -> fgt x fzero = true.
+Theorem interval_positive_inv : forall ops t rank len fs ffs i x off u l,
+  lookup i (dims (dfinal repaired ops (dinit t rank len fs ffs))) = Some (DSampled x off u l) -> fgt x fzero = true.
 Proof.
-  intros ops t rank len fs i x off u l L.
-  exact (lookup_ok _ _ _ (desc_ok_run ops _ (init_gf t rank len fs) (init_ok t rank len fs)) L).
+  intros ops t rank len fs ffs i x off u l L.
+  exact (lookup_ok _ _ _ (desc_ok_run ops _ (init_gf t rank len fs ffs) (init_ok t rank len fs ffs)) L).
 Qed.
 
-Theorem observation_ok : forall ops t rank len fs, (1 <= rank)%nat ->
-  dims_ok (dobserve (dfinal repaired ops (dinit t rank len fs))) = true.
+Theorem observation_ok : forall ops t rank len fs ffs, (1 <= rank)%nat ->
+  dims_ok (dobserve (dfinal repaired ops (dinit t rank len fs ffs))) = true.
 Proof. intros. apply observation_ok_run; [apply init_gf|apply init_ok|assumption]. Qed.
 
-Theorem delete_leaves_none_run : forall b ops t rank len fs,
-  let s := dfinal b ops (dinit t rank len fs) in
+Theorem delete_leaves_none_run : forall b ops t rank len fs ffs,
+  let s := dfinal b ops (dinit t rank len fs ffs) in
   ro s = false ->
   snd (dstep b DeleteDims s) = Ok (ABool true) /\ dims (fst (dstep b DeleteDims s)) = [] /\
   o_count (dobserve (fst (dstep b DeleteDims s))) = 0 /\ o_dims (dobserve (fst (dstep b DeleteDims s))) = [].
 Proof.
-  intros b ops t rank len fs s R.
+  intros b ops t rank len fs ffs s R.
   rewrite (delete_leaves_none b s) by (try assumption; apply gap_free_run; apply init_gf).
   repeat split.
 Qed.
 
-Theorem rejected_no_trace_run : forall ops t rank len fs o e,
-  let s := dfinal repaired ops (dinit t rank len fs) in
+Theorem rejected_no_trace_run : forall ops t rank len fs ffs o e,
+  let s := dfinal repaired ops (dinit t rank len fs ffs) in
   dimension_op o -> snd (dstep repaired o s) = Err e -> fst (dstep repaired o s) = s.
 Proof. intros. eapply rejected_no_trace; eauto. apply gap_free_run. apply init_gf. Qed.
+
+(** a frame HANDLE that is not a frame of the array's block - a frame of another block (whatever its name,
+    also the name of a local frame), a stale handle of a deleted-and-recreated frame, a frame whose block
+    was deleted - is refused by all three appendDataFrameDimension overloads and leaves no trace *)
+Theorem foreign_frame_refused : forall s n c nm, gap_free (dims s) ->
+  (fst (dstep repaired (AppendFrame (FForeign n)) s) = s /\ exists e, snd (dstep repaired (AppendFrame (FForeign n)) s) = Err e) /\
+  (fst (dstep repaired (AppendFrameIdx (FForeign n) c) s) = s /\ exists e, snd (dstep repaired (AppendFrameIdx (FForeign n) c) s) = Err e) /\
+  (fst (dstep repaired (AppendFrameName (FForeign n) nm) s) = s /\ exists e, snd (dstep repaired (AppendFrameName (FForeign n) nm) s) = Err e).
+Proof.
+  intros s n c nm H. cbn [dstep]. unfold append_frame, append_frame_idx, append_frame_name, append_frame_be, fref_cols.
+  rep_simpl. repeat split; crush; cbn [fst snd]; eauto.
+Qed.
